@@ -13,6 +13,11 @@ use crate::tree::result_flat;
 #[derive(Clone, Copy)]
 pub struct C03;
 
+static QUICK: std::sync::atomic::AtomicBool = std::sync::atomic::AtomicBool::new(false);
+fn quick_mode() -> bool {
+    QUICK.load(std::sync::atomic::Ordering::Relaxed)
+}
+
 const KS: [f32; 6] = [0.0, 0.25, 0.337, 0.5, 0.6789, 1.0];
 
 fn rnc(x: &RenNrenCo2) -> [f64; 3] {
@@ -85,7 +90,8 @@ fn check_inner(text: &str, out: &mut Out, exact: bool) {
     if comps.data.is_empty() {
         return;
     }
-    for fs in ["PENINSULA", "SKEW", "SKEW+COGEN"] {
+    let sets: &[&str] = if quick_mode() { &["PENINSULA", "SKEW+COGEN"] } else { &["PENINSULA", "SKEW", "SKEW+COGEN"] };
+    for fs in sets {
         for lm in [false, true] {
             let cfg = format!("factors={fs} load_matching={lm}");
             let f = subj::fset(fs);
@@ -212,6 +218,7 @@ fn check_exact(text: &str, key: sched::Key, out: &mut Out) {
 
 pub fn run(ctx: &Ctx) -> i32 {
     let shared = Shared::new("C03", ctx);
+    QUICK.store(ctx.quick(), std::sync::atomic::Ordering::Relaxed);
     flow_models(ctx, &shared, C03, FlowSpec { quick_depth: 3, thorough_depth: 4, extra: vec![], deep: true, seeded: true, t3: true, valuesets: true });
     finish(
         ctx,
@@ -219,7 +226,7 @@ pub fn run(ctx: &Ctx) -> i32 {
         &C03,
         Finish {
             level: "model_checking",
-            rule: "every FLOW state evaluated at k_exp in {0,0.25,0.337,0.5,0.6789,1} x 3 factor sets x load matching; non-trivial = some carrier exports".into(),
+            rule: "every FLOW state evaluated at k_exp in {0,0.25,0.337,0.5,0.6789,1} x 2 (quick) / 3 (thorough) factor sets x load matching; non-trivial = some carrier exports".into(),
             assumptions: strs(&[
                 "affinity and k-independence are compared with tolerance 2e-5*magnitude+1e-6 on every state (evaluations share the parsed components but not the hash keys)",
                 "bit-identity clauses are checked on the states with <= 2 lines, each k on a fresh thread with identical forced hash keys",
